@@ -7,8 +7,8 @@ THEOREMS = [
     "Mpir.Mm1.basecase_val",
     "Mpir.Mm1.mulmod_2expm1_val",
     "Mpir.Mm1.mpn_mulmod_bnm1_val",
-    "Mpir.Mm1.next_size_bounds",
     "Mpir.Mm1.redc_n_unconditional",
+    "Mpir.Mm1.reduceLR_eq",
     "Mpir.Mm1.mpn_powm_correct_all_sizes",
 ]
 TRUSTED = ["hand-written model lean/Mpir/Model/Mulmod2expm1.lean: mpn_mulmod_2expm1_basecase, mpn_mulmod_2expm1 (split into the "
@@ -116,6 +116,28 @@ def gen_ops(rng, tier, ctx=None):
             if not (0 < bn <= an <= rn): continue
             yield "mpn_mulmod_bnm1_x %x %s %s" % (rn, vec(rand_limbs(rng, an, rng.choice(["uniform", "ones", "runs"]))),
                                                  vec(rand_limbs(rng, bn, rng.choice(["uniform", "ones", "runs"]))))
+    # mpn_redc_n / mpn_powm answered by the model with the real mpn_mulmod_bnm1: the generators of part c08_limb
+    k = 0
+    for l in L.gen_redc_n(rng, tier, T):
+        if l.startswith("mpn_redc_n_l "):
+            u, m, ip = [int("".join("%016x" % int(x, 16) for x in reversed(t.strip("[]").split(","))), 16) for t in l.split()[1:]]
+            n = len(l.split()[2].split(","))
+            if (ip * m) % (1 << (64 * n)) == 1:
+                k += 1
+                if thor or k % 3 == 0: yield "mpn_redc_n_r" + l[len("mpn_redc_n_l"):]
+    for l in L.ripple_small(rng): yield "mpn_redc_n_r" + l[len("mpn_redc_n_l"):]
+    k = 0
+    for l in L.gen_powm(rng, tier, T):
+        if l.startswith("mpn_powm_m "):
+            k += 1
+            if thor or k % 4 == 0 or len(l) > 4000: yield "mpn_powm_r" + l[len("mpn_powm_m"):]
+    # moduli whose halves differ by one (the flags c1, c2 inside redc_n's wrap-around product)
+    for n in ([100, 128] if not thor else [100, 101, 128, 150, 200, 256]):
+        hb = 32 * n
+        Lo = rng.getrandbits(hb - 2) | 1
+        m = (Lo + 1) << hb | Lo
+        for b, e in ((rng.getrandbits(64 * n - 5), 2), (3, 0x10001)):
+            yield "mpn_powm_r %s %s %s" % (vec(limbs_of(b)), vec(limbs_of(e)), vec(limbs_of(m, n)))
     # next_size: every n up to 700, then samples (FFT table regimes) up to 2^30
     for n in list(range(1, 701)) + [rng.randrange(700, 1 << 14) for _ in range(300)] + \
             [rng.randrange(1 << s, 1 << (s + 1)) for s in range(14, 30) for _ in range(20)] + \
